@@ -1,4 +1,5 @@
 import ArimModel.RayGeom
+import ArimProofs.Tie.C05
 import ArimProofs.C17
 import Mathlib.Analysis.SpecialFunctions.Trigonometric.Inverse
 import Mathlib.Analysis.SpecialFunctions.Complex.Arg
@@ -494,4 +495,36 @@ example : (legAt tR hereR ⟨3, 4, 0⟩ none).radius = (legAt tR hereR ⟨3, 4, 
   radius_eq_size hereR _ _ hereR_orthonormal
 
 end examples
+
+/-! ## The signed-angle rule of the code as translated on this run
+
+`Src.signed_leg_angle` (file `Generated/SrcC05.lean`) is the translation of `arim.ray._signed_leg_angle` made from
+`/repo/src` on every run; `Tie.C05.tie_signed_leg_angle` identifies it with the model's `signedLegAngle`. -/
+section OnSource
+open Arim.Tie.C05
+
+/-- the routines of the translated code at `K = ℝ` -/
+noncomputable def srcOps : Src.Ops ℝ :=
+  { sin := Real.sin, cos := Real.cos, asin := Real.arcsin, sqrt := Real.sqrt, exp := Real.exp, sinc := id,
+    pi := Real.pi, ofNat := fun n => (n : ℝ), ofInt := fun z => (z : ℝ),
+    floor := fun x => ⌊x⌋, round := fun x => round x, trunc := fun x => ⌊x⌋ }
+
+/-- **documented rule, translated code**: `+θ` when the azimuth lies in `(−π/2, π/2]`, `−θ` otherwise -/
+theorem src_signed_rule (polar az : ℝ) :
+    Src.signed_leg_angle srcOps polar az = if (-(Real.pi / 2) < az ∧ az ≤ Real.pi / 2) then polar else -polar := by
+  rw [tie_signed_leg_angle srcOps Real.arccos (fun y x => Complex.arg ⟨x, y⟩), signed_rule]
+  have h2 : (trig srcOps Real.arccos (fun y x => Complex.arg ⟨x, y⟩)).two = 2 := by simp [trig, srcOps]
+  have hp : (trig srcOps Real.arccos (fun y x => Complex.arg ⟨x, y⟩)).pi = Real.pi := rfl
+  rw [h2, hp]
+
+/-- the boundary azimuths: `+π/2` keeps the sign, `−π/2` flips it (translated code) -/
+theorem src_signed_boundary (polar : ℝ) :
+    Src.signed_leg_angle srcOps polar (Real.pi / 2) = polar ∧ Src.signed_leg_angle srcOps polar (-(Real.pi / 2)) = -polar := by
+  have hpi := Real.pi_pos
+  constructor
+  · rw [src_signed_rule, if_pos]; constructor <;> linarith
+  · rw [src_signed_rule, if_neg]; intro h; exact absurd h.1 (lt_irrefl _)
+
+end OnSource
+
 end Arim.C05
